@@ -1,2 +1,111 @@
--- Driver stub for C05 (replaced when the property's model driver is written).
-def main : IO Unit := IO.println "C05: no driver yet"
+import TsVerif.Common.IO
+import TsVerif.Common.Tree
+import TsVerif.C05.Judge
+/-!
+Driver for C05: reads cases written by `harness/src/bin/c05.rs` (visible tree, query text, compile
+verdict, matches of the real cursor), parses the query into `Pat`, runs `matchAll`, prints
+`<case> judge=<ok|FAIL kind…|SKIP why> nimpl= nmodel= qfree= compiled= haserror=`.
+-/
+open TsVerif TsVerif.C05
+
+structure St where
+  id : String := ""
+  hasError : Bool := false
+  query : String := ""
+  compiled : Option Bool := none
+  errOffset : Nat := 0
+  errKind : String := ""
+  srcLen : Nat := 0
+  nodes : Array (VInfo × Nat) := #[]
+  capNames : Array String := #[]
+  impls : Array MatchKey := #[]
+
+def strOfHex (h : String) : String :=
+  if h == "-" then "" else
+    match String.fromUTF8? (ByteArray.mk ((unhexBytes h).map (fun n => n.toUInt8)).toArray) with
+    | some s => s
+    | none => "�"
+
+structure VFrame where
+  i : VInfo
+  need : Nat
+  acc : List VT
+
+def closeFrames : List VFrame → VT → (List VFrame × Option VT)
+  | [], t => ([], some t)
+  | f :: fs, t =>
+    let acc := t :: f.acc
+    if acc.length == f.need then closeFrames fs (.mk f.i acc.reverse)
+    else ({ f with acc := acc } :: fs, none)
+
+def buildVT (nodes : List (VInfo × Nat)) : Option VT :=
+  let rec go (nodes : List (VInfo × Nat)) (stack : List VFrame) (done : Option VT) : Option VT :=
+    match nodes with
+    | [] => done
+    | (i, cc) :: rest =>
+      if cc == 0 then
+        let (stack', r) := closeFrames stack (.mk i [])
+        go rest stack' (r <|> done)
+      else go rest ({ i := i, need := cc, acc := [] } :: stack) done
+  go nodes [] none
+
+def parseCapPairs (names : Array String) : List Nat → List (String × Nat)
+  | c :: n :: rest => (names[c]?.getD "?", n) :: parseCapPairs names rest
+  | _ => []
+
+def runCase (s : St) : String :=
+  let tail := s!"compiled={s.compiled.getD false} haserror={s.hasError}"
+  match buildVT s.nodes.toList with
+  | none => s!"{s.id} judge=FAIL badtree {tail}"
+  | some vt =>
+    match parseQuery s.query with
+    | none => s!"{s.id} judge=SKIP unsupported {tail}"
+    | some items =>
+      let quant := Item.anyQuant items
+      if quant && maxFanout vt > 9 then s!"{s.id} judge=SKIP toolarge qfree=false {tail}" else
+      let model := modelMatches vt items
+      let impl := s.impls.toList.map fun m => (m.1, canon m.2)
+      let info := s!"nimpl={impl.length} nmodel={model.length} qfree={!quant} npat={items.length} {tail}"
+      match s.compiled with
+      | some true =>
+        if !(impl.all fun x => model.contains x) then
+          let bad := impl.filter fun x => !model.contains x
+          s!"{s.id} judge=FAIL unsound first={repr bad.head!} {info}"
+        else if !quant && !soundB impl model then
+          let bad := impl.filter fun x => countOf x impl > countOf x model
+          s!"{s.id} judge=FAIL duplicate first={repr bad.head!} {info}"
+        else if !quant && !completeB impl model then
+          let bad := model.filter fun x => countOf x model > countOf x impl
+          let subsumed := bad.all fun x => impl.any fun y => y.1 == x.1 && y != x && subBag x.2 y.2
+          let kind := if subsumed then "incomplete-subsumed" else "incomplete"
+          s!"{s.id} judge=FAIL {kind} first={repr bad.head!} {info}"
+        else s!"{s.id} judge=ok {info}"
+      | _ =>
+        -- the rejected pattern is the one on the line of the error offset (one pattern per line)
+        let line := ((s.query.toList.take s.errOffset).filter (· == '\n')).length
+        let modelHere := model.filter fun x => x.1 == line
+        if s.errOffset > s.srcLen then s!"{s.id} judge=FAIL offset-outside-source {info}"
+        else if !s.hasError && !modelHere.isEmpty then s!"{s.id} judge=FAIL rejected-but-matches kind={s.errKind} pattern={line} {info}"
+        else s!"{s.id} judge=ok rejected={s.errKind} {info}"
+
+def step (s : St) (line : String) : IO St := do
+  match line.splitOn " " with
+  | ["case", id] => return { id := id }
+  | ["haserror", b] => return { s with hasError := b == "1" }
+  | ["query", h] => return { s with query := strOfHex h }
+  | ["compile", "ok"] => return { s with compiled := some true }
+  | ["compile", "err", off, kind, len] =>
+    return { s with compiled := some false, errOffset := natOf off, errKind := kind, srcLen := natOf len }
+  | ["n", id, named, missing, error, extra, sb, eb, nc, kind, field] =>
+    let i : VInfo := { id := natOf id, kind := strOfHex kind, named := named == "1", missing := missing == "1",
+                       error := error == "1", extra := extra == "1",
+                       field := if field == "-" then none else some (strOfHex field), sb := natOf sb, eb := natOf eb }
+    return { s with nodes := s.nodes.push (i, natOf nc) }
+  | "caps" :: names => return { s with capNames := names.toArray }
+  | "m" :: pat :: _n :: rest =>
+    return { s with impls := s.impls.push (natOf pat, parseCapPairs s.capNames (rest.map natOf)) }
+  | ["run"] => IO.println (runCase s); return s
+  | _ => return s
+
+def main : IO Unit := do
+  let _ ← foldLines (← IO.getStdin) ({} : St) step
